@@ -1160,4 +1160,169 @@ def rule_reset(ctx) -> RuleResult:
     return res
 
 
-RULES = [rule_w1, rule_w2, rule_w3, rule_w4, rule_spec, rule_inplace, rule_skip, rule_reset]
+def _self_members(e, sn) -> set:
+    """Members of self an expression reads: self.x, getattr(self, "x"[, d]), hasattr(self, "x")."""
+    out = set()
+    for x in ast.walk(e):
+        if isinstance(x, ast.Attribute) and isinstance(x.value, ast.Name) and x.value.id == sn:
+            out.add(x.attr)
+        elif isinstance(x, ast.Call) and isinstance(x.func, ast.Name) and x.func.id in ("getattr", "hasattr") and len(x.args) >= 2 \
+                and isinstance(x.args[0], ast.Name) and x.args[0].id == sn and isinstance(x.args[1], ast.Constant) and isinstance(x.args[1].value, str):
+            out.add(x.args[1].value)
+    return out
+
+
+def _shadowing_fields(ctx, getter, prop, domain) -> dict:
+    """{other persisted attribute g: line of the deciding test} — the getter of `prop` has a condition that reads g (through
+    the property or its backing field) and not `prop`'s own field, one branch of which answers without consulting the value
+    stored for `prop` (returns something else, or overwrites the backing field first) while the other answers from it."""
+    cache = ctx.cache.setdefault("c03_shadow", {})
+    key = (getter, prop)
+    if key in cache:
+        return cache[key]
+    sn = getter.self_name or "self"
+    own = {prop, "_" + prop}
+    v = ctx.view(getter)
+    g = CFG(_with_expanded_tests(v.node))
+
+    def reads_own(e):
+        return bool(_self_members(e, sn) & own) if e is not None and not isinstance(e, list) else False
+
+    def overwrites_own(n):
+        a = n.ast
+        if n.kind != "stmt" or not isinstance(a, (ast.Assign, ast.AnnAssign)) or a.value is None:
+            return False
+        tgs = a.targets if isinstance(a, ast.Assign) else [a.target]
+        return any(isinstance(t, ast.Attribute) and isinstance(t.value, ast.Name) and t.value.id == sn and t.attr in own for t in tgs) \
+            and not reads_own(a.value)
+
+    def answers_without_own(start):
+        seen, todo = set(), [start]
+        while todo:
+            n = todo.pop()
+            if n in seen or n.kind in ("exit", "rexit"):
+                continue
+            seen.add(n)
+            if overwrites_own(n):
+                return True
+            src = n.ast if n.kind != "with" else None
+            if n.kind == "return" and n.ast is not None and not reads_own(n.ast):
+                return True
+            if src is not None and not isinstance(src, list) and n.kind in ("stmt", "test", "return", "assert", "foriter") and reads_own(src):
+                continue  # from here on the answer may come from the stored value
+            todo += [m for m, _ in n.succ]
+        return False
+
+    out = {}
+    for n in g.nodes:
+        if n.kind != "test":
+            continue
+        ms = _self_members(n.ast, sn)
+        if ms & own:
+            continue  # lazy loading / defaulting of the attribute itself
+        others = {m.lstrip("_") for m in ms} & (set(domain) - {prop})
+        if not others:
+            continue
+        br = {lab: answers_without_own(m) for m, lab in n.succ if lab in ("true", "false")}
+        if len(br) == 2 and br["true"] != br["false"]:
+            for o in sorted(others):
+                out.setdefault(o, n.lineno)
+    # the same decision written as a conditional expression: `return 90.0 if self.vertical else self._dip`
+    for x in ast.walk(v.node):
+        if isinstance(x, ast.IfExp):
+            ms = _self_members(x.test, sn)
+            others = {m.lstrip("_") for m in ms} & (set(domain) - {prop})
+            if others and not (ms & own) and reads_own(x.body) != reads_own(x.orelse):
+                for o in sorted(others):
+                    out.setdefault(o, x.lineno)
+    cache[key] = out
+    return out
+
+
+def _restores_with(eng, fn, K, fld, other, depth=0, _stack=()):
+    """(violates, must) for `fn` resolved on K: `violates` — some normal path stores backing field `fld` and reaches the exit
+    without storing `other` (directly, through `other`'s property setter, or in a helper that always does); `must` — every
+    normal path stores `other`."""
+    key = ("restores", fn, K, fld, other)
+    if key in eng._memo:
+        return eng._memo[key]
+    if fn in _stack or depth > 3:
+        return (False, False)
+    g = eng.cfg(fn)
+    aliases = eng._aliases(fn, K)
+    m = K.lookup(other[1:])
+    other_setter = m[2].setter if (m and m[1] == "prop") else None
+    f_nodes, o_nodes, bad_call = set(), set(), False
+    for n in g.nodes:
+        if n.kind in ("entry", "exit", "rexit", "withexit", "break", "continue", "def", "except") or n.ast is None or isinstance(n.ast, list):
+            continue
+        for ev in eng.events(fn, K, n.ast, aliases):
+            if ev[0] == "store" and ev[1] == "self":
+                if ev[2] == fld:
+                    f_nodes.add(n)
+                if ev[2] == other:
+                    o_nodes.add(n)
+            elif ev[0] == "call":
+                if ev[1] is other_setter:
+                    o_nodes.add(n)
+                    continue
+                sub_v, sub_m = _restores_with(eng, ev[1], K, fld, other, depth + 1, _stack + (fn,))
+                if sub_m:
+                    o_nodes.add(n)
+                elif sub_v:
+                    bad_call = True
+    free = reach(g, [g.entry], avoid=lambda n: n in o_nodes)  # reached without `other` having been stored
+    must = g.exit not in free
+    violates = bad_call
+    for n in f_nodes:
+        if n in o_nodes:
+            continue
+        # `other` stored neither before (n reached freely) nor after (exit reached freely from n)
+        if n in free and g.exit in reach(g, [x for x, _ in n.succ], avoid=lambda y: y in o_nodes):
+            violates = True
+    eng._memo[key] = (violates, must)
+    return eng._memo[key]
+
+
+def rule_shadow(ctx) -> RuleResult:
+    res = RuleResult(
+        "C03.SHADOW",
+        "C03",
+        "when the getter of a persisted attribute P answers without consulting P's stored value because of a test on ANOTHER "
+        "persisted field G of the entity (G shadows P), P's setter stores G on every normal path that stores P's backing "
+        "field: otherwise a G left over from an earlier assignment keeps overriding the value just accepted, in memory and "
+        "— both being written by the same persistence call — on file",
+        floor=60,
+    )
+    eng = engine(ctx)
+    pairs = 0
+    for K in families(ctx):
+        if component_domain(K) is not None:
+            continue
+        dom = eng.domain(K)
+        for prop in sorted(dom):
+            m = K.lookup(prop)
+            if not m or m[1] != "prop" or m[2].getter is None or m[2].setter is None:
+                continue
+            shadows = _shadowing_fields(ctx, m[2].getter, prop, dom)
+            if not shadows:
+                res.inst(f"{K.name}.{prop}: no other persisted field decides the getter's answer")
+                continue
+            setter = m[2].setter
+            for other, line in sorted(shadows.items()):
+                pairs += 1
+                bad, _must = _restores_with(eng, setter, K, "_" + prop, "_" + other)
+                res.inst(f"{K.name}.{prop}: shadowed by {other} (getter line {line}); setter {setter.qualname} restores _{other} with _{prop}",
+                         nontrivial=True, ok=not bad)
+                if bad:
+                    res.find(setter.cls.name, prop, f"_{prop} stored on a path that does not store _{other}, which shadows it in the getter",
+                             setter.where,
+                             f"the getter of {prop} answers from `{other}` (line {line}) instead of the stored _{prop} when {other} is set; "
+                             f"{setter.qualname} stores _{prop} on a normal path that leaves _{other} as it was (stored only under a "
+                             f"condition on the new value, or not at all): after {prop} was given a value that switched {other} on, a later "
+                             f"valid assignment is accepted, persisted and still read back as the old answer", resolved_on=K.name, getter_line=line)
+    res.notes.append(f"{pairs} (class, attribute, shadowing field) triples found")
+    return res
+
+
+RULES = [rule_w1, rule_w2, rule_w3, rule_w4, rule_spec, rule_inplace, rule_skip, rule_reset, rule_shadow]
